@@ -65,6 +65,7 @@ Apply(tx, w0) ==
     [] tx.k = "set_canredel" -> EnvResult(TRUE, w0, [w0 EXCEPT !.canRedel[tx.v] = tx.b])
     [] tx.k = "set_legacy"   -> EnvResult(TRUE, w0, [w0 EXCEPT !.legacy = tx.entries])     \* test set-up only: pre-migration storage
     [] tx.k = "deliver"   -> EnvResult(TRUE, w0, [w0 EXCEPT !.bank["reward"][tx.d] = @ + tx.a])       \* coins sent to the reward contract
+    [] tx.k = "fund"      -> EnvResult(tx.to \in BankAccts, w0, [w0 EXCEPT !.bank[tx.to][tx.d] = @ + tx.a])   \* unsolicited coins to any account
     [] tx.k = "instantiate_token" ->                                                                \* a fresh token contract at address tx.c
          LET r == TokInstantiate(tx.c, "hub", IF tx.c = "stsei" THEN "owner" ELSE "", tx.init)
          IN EnvResult(r.ok, w0, [w0 EXCEPT ![tx.c] = r.t])
@@ -110,6 +111,7 @@ EvSlashUnb(v, n)    == [k |-> "slash_unb", v |-> v, n |-> n]
 EvAccrue(v, d, a)   == [k |-> "accrue", v |-> v, d |-> d, a |-> a]
 EvDonate(u, a)      == [k |-> "donate", u |-> u, a |-> a]
 EvDeliver(d, a)     == [k |-> "deliver", d |-> d, a |-> a]
+EvFund(to, d, a)    == [k |-> "fund", to |-> to, d |-> d, a |-> a]
 TxIndexUpdate       == ExecTx("dispatcher", "reward", [k |-> "update_global_index"], <<>>)
 TxMint(tok, u, a)   == ExecTx("hub", tok, [k |-> "mint", recipient |-> u, amount |-> a], <<>>)
 
